@@ -295,6 +295,13 @@ func main() {
 	start := time.Now()
 
 	if *oneCase >= 0 {
+		// (a case that blocks for ever must look like a hang to whoever
+		// watches this process, not like Go's "all goroutines are asleep")
+		go func() {
+			for {
+				time.Sleep(time.Hour)
+			}
+		}()
 		c := chooserFor(p, *base, enum, *oneCase)
 		o := p.Run(c, newStats(), true)
 		rf := &ReplayFile{Property: p.ID(), Base: *base, Tier: *tier, CaseIndex: *oneCase, Trace: c.Values(), Rendering: o.Sample}
@@ -536,6 +543,11 @@ func doReplay(p Prop, path string) int {
 		enum := p.Enumerate(rf.Tier)
 		c = chooserFor(p, rf.Base, enum, rf.CaseIndex)
 	}
+	go func() {
+		for {
+			time.Sleep(time.Hour)
+		}
+	}()
 	if strings.HasSuffix(rf.Class, "/hang") {
 		go func() {
 			time.Sleep(12 * time.Second)
